@@ -323,7 +323,7 @@ func runE2EPipe(prop string, c *e2ePipeCase) (v verdict, sig string, err error) 
 		fsEnd = fsEnd2
 	}
 	proc.signal(syscall.SIGTERM)
-	if !proc.waitExit(6 * time.Second) {
+	if !proc.waitExitFair(6 * time.Second) {
 		return v, "no-exit", fmt.Errorf("collector did not exit within 6 s of SIGTERM")
 	}
 	if bad := stderrProblem(proc.stderrText()); bad != "" {
@@ -545,7 +545,7 @@ func runC01E2E(c *c01E2ECase) (v verdict, sig string, err error) {
 		return v, "stalled", fmt.Errorf("the receive queues did not drain within 10 s after %d datagrams (a worker is stuck)", n)
 	}
 	proc.signal(syscall.SIGTERM)
-	if !proc.waitExit(6 * time.Second) {
+	if !proc.waitExitFair(6 * time.Second) {
 		return v, "no-exit", fmt.Errorf("collector did not exit within 6 s of SIGTERM after malformed traffic")
 	}
 	if bad := stderrProblem(proc.stderrText()); bad != "" {
@@ -874,7 +874,7 @@ func runC17E2E(c *c17E2ECase) (v verdict, sig string, err error) {
 		}
 	}
 	proc.signal(syscall.SIGTERM)
-	if !proc.waitExit(6 * time.Second) {
+	if !proc.waitExitFair(6 * time.Second) {
 		return v, "no-exit", fmt.Errorf("collector with the generated configuration (masks %v, enable values %v) did not exit within 6 s of SIGTERM", c.Masks, c.Bools)
 	}
 	// the template caches are written at shutdown to the effective paths, and nowhere else
